@@ -22,7 +22,6 @@ import (
 	"sync"
 	"time"
 
-	"github.com/saucelabs/forwarder/internal/martian/h2"
 	"golang.org/x/net/http2"
 	"golang.org/x/net/http2/hpack"
 )
@@ -83,6 +82,9 @@ type endpoint struct {
 	// encAllowed: the HEADER_TABLE_SIZE this endpoint's encoder has applied (the largest size it may
 	// signal: RFC 7541 4.2); a setting it has not applied yet does not bind it (RFC 7540 6.5.3)
 	encAllowed uint32
+	// encPending: enc has a dynamic table size update to signal; it does so in front of the next field
+	// it writes, which therefore has to be the first of its block (RFC 7541 4.2)
+	encPending bool
 
 	mu     sync.Mutex
 	cond   *sync.Cond
@@ -275,6 +277,7 @@ type dirState struct {
 	// mirror blocks per stream in encoding order, and how many the receiver has matched
 	mirrorBlocks map[uint32][][]byte
 	matched      map[uint32]int
+	sentLists    map[uint32][]string // header lists completed per stream (hexList), "" = too large to be kept
 	// DATA octets sent / received per stream
 	sent map[uint32][]byte
 	got  map[uint32][]byte
@@ -290,7 +293,7 @@ type dirState struct {
 }
 
 func newDirState() *dirState {
-	d := &dirState{mirrorBlocks: map[uint32][][]byte{}, matched: map[uint32]int{}, sent: map[uint32][]byte{}, got: map[uint32][]byte{}}
+	d := &dirState{sentLists: map[uint32][]string{}, mirrorBlocks: map[uint32][][]byte{}, matched: map[uint32]int{}, sent: map[uint32][]byte{}, got: map[uint32][]byte{}}
 	d.mirror = hpack.NewEncoder(&d.mirrorBuf)
 	d.mirror.SetMaxDynamicTableSizeLimit(math.MaxUint32)
 	d.relayDec = hpack.NewDecoder(4096, nil)
@@ -330,6 +333,32 @@ func canonList(fs []hpack.HeaderField) string {
 		sb.WriteByte(1)
 	}
 	return sb.String()
+}
+
+const maxHdrObs = 6
+
+// hexList renders a header list for the Lean driver (name:value:sensitive per field, hex, `_` = empty
+// string, `~` = empty list); "" when it is too large to be worth a model query.
+func hexList(fs []hpack.HeaderField) string {
+	if len(fs) == 0 {
+		return "~"
+	}
+	hx := func(s string) string {
+		if s == "" {
+			return "_"
+		}
+		return fmt.Sprintf("%x", s)
+	}
+	n := 0
+	parts := make([]string, len(fs))
+	for i, f := range fs {
+		n += len(f.Name) + len(f.Value)
+		if n > 600 {
+			return ""
+		}
+		parts[i] = hx(f.Name) + ":" + hx(f.Value) + ":" + b01(f.Sensitive)
+	}
+	return strings.Join(parts, ",")
 }
 
 func (r *Runner) listID(fs []hpack.HeaderField) int {
@@ -374,7 +403,7 @@ func NewRunnerFor(p Params) (*Runner, error) {
 	}()
 	var cHarness net.Conn
 	if p.E2E != nil {
-		cHarness, err = r.startE2E(p.E2E, ln.Addr().String())
+		cHarness, err = r.startE2E(p, ln.Addr().String())
 		if err != nil {
 			ln.Close()
 			return nil, err
@@ -382,7 +411,7 @@ func NewRunnerFor(p Params) (*Runner, error) {
 	} else {
 		var cRelay net.Conn
 		cHarness, cRelay = net.Pipe()
-		cfg := &h2.Config{RootCAs: tlsRoots}
+		cfg := relayConfig(p)
 		u := &url.URL{Scheme: "https", Host: ln.Addr().String()}
 		go func() { r.proxyErr <- cfg.Proxy(r.closing, cRelay, u) }()
 	}
@@ -497,7 +526,7 @@ func (r *Runner) write(op *Op) error {
 // buffer: a burst is prepared in full before any of it is written).
 func (r *Runner) writeTo(fr *http2.Framer, op *Op) error {
 	self, _, out, in, _, _ := r.ep(op.Side)
-	op.EH, op.FragLen, op.ReencLen, op.ListID = false, 0, 0, 0
+	op.EH, op.FragLen, op.ReencLen, op.ListID, op.RawSent = false, 0, 0, 0, 0
 	op.SizeUpd, op.DecErr = nil, ""
 	switch op.Kind {
 	case "data":
@@ -516,15 +545,23 @@ func (r *Runner) writeTo(fr *http2.Framer, op *Op) error {
 				v = self.encAllowed
 			}
 			self.enc.SetMaxDynamicTableSize(v)
+			self.encPending = true
 		}
 		self.encBuf.Reset()
-		for _, f := range fields {
+		for i, f := range fields {
+			if op.Fields[i].Raw && !self.encPending {
+				self.encBuf.Write(appendRawField(nil, op.Fields[i]))
+				op.RawSent++
+				continue
+			}
 			if err := self.enc.WriteField(f); err != nil {
 				return err
 			}
+			self.encPending = false
 		}
 		if out.lateTable != nil {
 			self.enc.SetMaxDynamicTableSize(*out.lateTable)
+			self.encPending = true
 			self.encAllowed = *out.lateTable
 			out.lateTable = nil
 		}
@@ -637,6 +674,7 @@ func (r *Runner) completeBlock(op *Op, out *dirState) {
 	}
 	blk := append([]byte(nil), out.mirrorBuf.Bytes()...)
 	out.mirrorBlocks[op.Sid] = append(out.mirrorBlocks[op.Sid], blk)
+	out.sentLists[op.Sid] = append(out.sentLists[op.Sid], hexList(out.fields))
 	op.ReencLen = len(blk)
 	op.ListID = out.blockList
 	op.SizeUpd = sizeUpdates(out.fullBlock)
@@ -710,6 +748,7 @@ func (r *Runner) observe(e *endpoint, in *dirState, outOfE *dirState, fs []Frame
 						outOfE.lateTable = &v
 					} else {
 						e.enc.SetMaxDynamicTableSize(v)
+						e.encPending = true
 						e.encAllowed = v
 					}
 				}
@@ -728,8 +767,14 @@ func (r *Runner) finishBlock(e *endpoint, in *dirState, f *Frame) {
 	} else if len(r.res.BlockBad) < 5 {
 		r.res.BlockBad = append(r.res.BlockBad, fmt.Sprintf("%s stream %d: unexpected block %d", e.side, sid, k))
 	}
+	k := in.matched[sid]
 	in.matched[sid]++
 	fields, err := e.dec.DecodeFull(e.blk)
+	if err == nil && k < len(in.sentLists[sid]) && in.sentLists[sid][k] != "" && len(r.res.HdrObs) < maxHdrObs {
+		if got := hexList(fields); got != "" {
+			r.res.HdrObs = append(r.res.HdrObs, HdrObs{Side: e.side, Sid: sid, Sent: in.sentLists[sid][k], Got: got})
+		}
+	}
 	if err != nil {
 		f.ListID = badList
 		if len(r.res.DecodeErr) < 5 {
